@@ -106,10 +106,12 @@ def lift_for_unsigned(sp):
         sp["session"] = [[[b + need, d + need] for b, d in dg] for dg in sp["session"]]
 
 
-def observe(session, fn, emb, nproc, sigma_t=None, M=None, hashseeds=(0,), container=None):
+def observe(session, fn, emb, nproc, sigma_t=None, M=None, hashseeds=(0,), container=None, float_sigma=False):
     jobs = []
     n = len(session)
     sf = None if sigma_t is None else float(emb.s) ** 2 * sigma_t
+    if sf is not None and float(sf).is_integer() and 0 < sf < 2 ** 40 and not float_sigma:
+        sf = int(sf)        # a whole-number bandwidth is handed over as a Python int (as in heat(F, G, sigma=1))
     if container:   # one job: the whole session on shared argument objects
         D = [[[emb.f(b), emb.f(d)] for b, d in dg] for dg in session]
         if container in ("int", "intlist") and not all(float(v).is_integer() and abs(v) < 2 ** 52 for dg in D for p in dg for v in p):
@@ -171,11 +173,11 @@ def run_sessions(ctx, specs, label, owner_clause=lambda cl: True, nproc=12):
     for sp in specs:
         n = len(sp["session"])
         parts = {}
-        for key, fn in [("V", sp["fn"])] + [(a, {"W": "wass", "BT": "bott"}[a]) for a in sp.get("aux", [])]:
+        for key, fn in [("V", sp["fn"])] + [(a, {"W": "wass", "BT": "bott", "SF": sp["fn"]}[a]) for a in sp.get("aux", [])]:
             if key == "V" and sp.get("_twin_of") is not None:
                 parts[key] = (None, 0)
                 continue
-            jobs = observe(sp["session"], fn, sp["emb"], nproc, sp.get("sigma_t"), sp.get("M"), container=sp.get("container") if key == "V" else None)
+            jobs = observe(sp["session"], fn, sp["emb"], nproc, sp.get("sigma_t"), sp.get("M"), container=sp.get("container") if key == "V" else None, float_sigma=(key == "SF"))
             if key == "V" and sp.get("_twin") is not None:
                 jobs[0]["D2"] = [[[sp["emb"].f(b), sp["emb"].f(d)] for b, d in dg] for dg in sp["_twin"]["session"]]
             parts[key] = (len(alljobs), len(jobs))
@@ -203,11 +205,11 @@ def run_sessions(ctx, specs, label, owner_clause=lambda cl: True, nproc=12):
         conv = (lambda v: v * s) if sp["fn"] == "heat" else (lambda v: v / s)
         lo, ln = parts["V"]
         V, bad = to_matrix(parts["Vx"] if "Vx" in parts else results[lo:lo + ln], n, conv)
-        c = dict(fn=sp["fn"], D=sp["session"], V=V, W=[], BT=[], sigma=fix(Fraction(sp["sigma_t"]) if sp.get("sigma_t") else 0), anchor=int(sp.get("anchor", 0)),
+        c = dict(fn=sp["fn"], D=sp["session"], V=V, W=[], BT=[], SF=[], sigma=fix(Fraction(sp["sigma_t"]) if sp.get("sigma_t") else 0), anchor=int(sp.get("anchor", 0)),
                  Mdirs=sp.get("M") or 1, zerotol=fix(Fraction(sp["zerotol"])))
         for a in sp.get("aux", []):
             lo, ln = parts[a]
-            c[a], _ = to_matrix(results[lo:lo + ln], n, lambda v: v / s)
+            c[a], _ = to_matrix(results[lo:lo + ln], n, conv if a == "SF" else (lambda v: v / s))
         c["_bad"] = bad
         cases.append(c)
     tl = [{k: v for k, v in c.items() if k != "_bad"} for c in cases]
